@@ -502,6 +502,10 @@ func (e *Exec) evalCall(env *Env, x *ast.CallExpr) Val {
 		return vStr(sx("str.from_code", arg(0).t()))
 	case "code":
 		return vInt(sx("str.to_code", sx("str.at", asStr(arg(0)), arg(1).t())))
+	case "sel":
+		return vInt(sx("select", arg(0).t(), arg(1).t()))
+	case "upd":
+		return Val{K: KMap, A: []string{sx("store", arg(0).t(), arg(1).t(), arg(2).t())}}
 	case "typeof":
 		return vInt(sx("typeof", arg(0).t()))
 	case "ffmt":
@@ -600,6 +604,11 @@ func (e *Exec) evalCall(env *Env, x *ast.CallExpr) Val {
 	if sf, ok := e.P.CS.Specs[name]; ok {
 		return e.applySpec(env, sf, e.evalArgs(env, x.Args))
 	}
+	if gt, ok := e.P.CS.GhostFields[name]; ok {
+		k, t := e.specType("", gt)
+		srt := sortsOf(k)[0]
+		return Val{K: k, T: t, A: []string{e.sel(env.st, "GF_"+name, srt, arg(0).t())}}
+	}
 	return env.fail("unknown function %q", name)
 }
 
@@ -658,6 +667,8 @@ func (e *Exec) specType(pkgPath, src string) (Kind, types.Type) {
 		return KRef, nil
 	case "seqstr":
 		return KUnit, nil
+	case "map":
+		return KMap, nil
 	}
 	var pk *types.Package
 	if sp := e.P.SPkgs[pkgPath]; sp != nil {
